@@ -38,7 +38,7 @@ set_option maxHeartbeats 1000000 in
 theorem inv2_fstep {P : Project} {s s' : State} {t : Tid} (inv1 : Inv1 P s) (inv : Inv2 s) (st : FStep P s t s') : Inv2 s' := by
   have ⟨i1,i2,i3,i4,i5,i6,i7,i8,i9,i10,i11,i12⟩ := inv1
   have ⟨j1,j2,j3,j4,j5,j6,j7,j8,j9⟩ := inv
-  cases st <;> constructor <;> simp only [setPc, publish, upd, claims] at * <;> first | grind [target, foundPc] | skip
+  cases st <;> constructor <;> simp only [setPc, publish, goSleep, upd, claims] at * <;> first | grind [target, foundPc] | skip
   case load.owner_exists d hpc =>
     intro m hr hl
     rcases j6 m hr hl with ⟨t1, f, hf, hm⟩ | ⟨t1, hc⟩
